@@ -992,10 +992,13 @@ fn q_astar(
         Some(Box::new(move |node, _target, _g| map.get(&node).copied().unwrap_or(0.0)))
     };
     // categorical features of the input used in failure signatures
-    let parallel_diff = (0..n).any(|u| adj[u].iter().any(|a| adj[u].iter().any(|b| b.to == a.to && b.e != a.e && b.w != a.w && a.to != u)));
+    // only the part of the graph the search can reach from the start matters
+    let reach = refalg::bfs(&adj, s, &|_| true, None);
+    let parallel_diff = (0..n).any(|u| reach[u].is_some() && adj[u].iter().any(|a| adj[u].iter().any(|b| b.to == a.to && b.e != a.e && b.w != a.w && a.to != u)));
     let unpriceable = m.edges.iter().any(|e| {
         edge_ok(e)
             && e.from != e.to
+            && (m.idx(e.from).map_or(false, |i| reach[i].is_some()) || m.idx(e.to).map_or(false, |i| reach[i].is_some()))
             && match d {
                 Dir::Out | Dir::In => !e.directed,
                 Dir::Both => e.directed,
@@ -1067,6 +1070,12 @@ fn q_astar(
                 )?;
             }
             nt = nontrivial_hops(&adj, s, t, p.edges.len(), &|_| true);
+            if nt && feature.is_empty() {
+                ctx.label("astar: plain input, optimum >= 2 hops and a longer alternative exists");
+                if heur % 4 != 0 {
+                    ctx.label("astar: plain input, >= 2 hops, alternative, with a heuristic");
+                }
+            }
         },
     }
     Ok(QOut { nontrivial: nt })
